@@ -609,6 +609,40 @@ func ruleDefaults(c *Ctx) {
 	if n < 6 {
 		c.R.Undecided("R-DEFAULTS", "NewClient", "instance-floor", fmt.Sprintf("only %d conditional defaults found, 8 were counted by hand", n))
 	}
+	// presence: the fields the rest of the client relies on being set
+	if f := p.Fn("NewClient"); f != nil {
+		info := f.Pkg.TypesInfo
+		stored := map[string]bool{}
+		ast.Inspect(f.Body, func(x ast.Node) bool {
+			if as, ok := x.(*ast.AssignStmt); ok {
+				for i, l := range as.Lhs {
+					if fv := SelField(info, l); fv != nil && i < len(as.Rhs) && !isNilIdent(info, as.Rhs[i]) {
+						if k, isK := constInt(info, as.Rhs[i]); isK && k == 0 {
+							continue
+						}
+						stored[p.FieldName(fv)] = true
+					}
+				}
+			}
+			return true
+		})
+		for _, w := range []struct{ field, why string }{
+			{"ClientConfig.MinPort", "the port range handed to the plugin (PLUGIN_MIN_PORT)"},
+			{"ClientConfig.MaxPort", "the port range handed to the plugin (PLUGIN_MAX_PORT)"},
+			{"ClientConfig.StartTimeout", "a zero timeout makes every Start fail at once"},
+			{"ClientConfig.Stderr", "logStderr writes every line to it"},
+			{"ClientConfig.SyncStdout", "the stdio forwarders write to it"},
+			{"ClientConfig.SyncStderr", "the stdio forwarders write to it"},
+			{"ClientConfig.Logger", "every log statement dereferences it"},
+		} {
+			construct := "default exists for " + w.field
+			if stored[w.field] {
+				c.R.Hold("R-DEFAULTS", p.Pos(f.Node()), f.Name, construct, "", false)
+			} else {
+				c.R.Violate("R-DEFAULTS", p.Pos(f.Node()), f.Name, construct, "NewClient no longer gives "+w.field+" a default: "+w.why+", and a configuration that leaves it unset now reaches the plugin (or the forwarding code) with the zero value", nil)
+			}
+		}
+	}
 }
 
 // ---------- dial options table ----------
@@ -621,6 +655,26 @@ func ruleDialOptions(c *Ctx) {
 		return
 	}
 	info := f.Pkg.TypesInfo
+	// the caller's options (DialWithOptions) are passed on: the variadic
+	// parameter is spread into an append or into the Dial call
+	if f.Type.Params != nil && len(f.Type.Params.List) > 0 {
+		last := f.Type.Params.List[len(f.Type.Params.List)-1]
+		if _, isVar := last.Type.(*ast.Ellipsis); isVar && len(last.Names) == 1 {
+			pv := info.Defs[last.Names[0]]
+			used := false
+			ast.Inspect(f.Body, func(x ast.Node) bool {
+				if call, ok := x.(*ast.CallExpr); ok && call.Ellipsis.IsValid() && len(call.Args) > 0 && identObj(info, call.Args[len(call.Args)-1]) == pv {
+					used = true
+				}
+				return true
+			})
+			if used {
+				c.R.Hold("R-SIB/dialopts", p.Pos(f.Node()), f.Name, "caller's dial options are applied", "the variadic parameter is spread into the option list", true)
+			} else {
+				c.R.Violate("R-SIB/dialopts", p.Pos(f.Node()), f.Name, "caller's dial options are applied", "the options a caller passes to DialWithOptions never reach grpc.Dial: per-connection settings (interceptors, authority, message limits) are silently dropped", nil)
+			}
+		}
+	}
 	have := map[string]int64{}
 	for _, call := range f.Calls() {
 		nm := p.CalleeName(f, call)
